@@ -215,3 +215,215 @@ func DocText(fd *ast.FuncDecl) string {
 	}
 	return fd.Doc.Text()
 }
+
+// Norm prints a node with every identifier that denotes a function-local object (receiver,
+// parameter, local variable) replaced by L<k>, numbered in order of first occurrence inside the
+// node, and with all whitespace removed. Two snippets that differ only in the names of locals
+// print identically, so shape rules written against Norm do not fire on renamings.
+func (c *Ctx) Norm(p *packages.Package, n ast.Node) string {
+	if n == nil {
+		return ""
+	}
+	info := p.TypesInfo
+	type saved struct {
+		id   *ast.Ident
+		name string
+	}
+	var restore []saved
+	num := map[types.Object]int{}
+	ast.Inspect(n, func(m ast.Node) bool {
+		id, ok := m.(*ast.Ident)
+		if !ok {
+			return true
+		}
+		o := ObjOf(info, id)
+		v, isVar := o.(*types.Var)
+		if !isVar || v.IsField() || v.Parent() == nil || v.Parent() == p.Types.Scope() || v.Parent() == types.Universe {
+			return true
+		}
+		k, seen := num[o]
+		if !seen {
+			k = len(num)
+			num[o] = k
+		}
+		restore = append(restore, saved{id, id.Name})
+		id.Name = "L" + itoa(k)
+		return true
+	})
+	out := c.Src(n)
+	for _, s := range restore {
+		s.id.Name = s.name
+	}
+	return squashStmts(out)
+}
+
+// squashStmts removes comments and whitespace; statement boundaries (newlines) become ';'.
+func squashStmts(src string) string {
+	var parts []string
+	for _, line := range strings.Split(src, "\n") {
+		if i := strings.Index(line, "//"); i >= 0 && !strings.Contains(line[:i], "\"") {
+			line = line[:i]
+		}
+		line = strings.Join(strings.Fields(line), " ")
+		if line == "" {
+			continue
+		}
+		parts = append(parts, line)
+	}
+	out := strings.Join(parts, ";")
+	// keep a space only between two identifier characters (func f, return x, x := range y)
+	var b strings.Builder
+	isId := func(ch byte) bool {
+		return ch == '_' || ch >= '0' && ch <= '9' || ch >= 'a' && ch <= 'z' || ch >= 'A' && ch <= 'Z'
+	}
+	for i := 0; i < len(out); i++ {
+		if out[i] == ' ' {
+			if i > 0 && i+1 < len(out) && isId(out[i-1]) && isId(out[i+1]) {
+				b.WriteByte(' ')
+			}
+			continue
+		}
+		b.WriteByte(out[i])
+	}
+	res := b.String()
+	for _, r := range [][2]string{{"{;", "{"}, {";}", "}"}, {";;", ";"}, {"(;", "("}, {";)", ")"}, {",;", ","}} {
+		for strings.Contains(res, r[0]) {
+			res = strings.ReplaceAll(res, r[0], r[1])
+		}
+	}
+	return res
+}
+
+func itoa(i int) string {
+	if i == 0 {
+		return "0"
+	}
+	s := ""
+	for i > 0 {
+		s = string(rune('0'+i%10)) + s
+		i /= 10
+	}
+	return s
+}
+
+// alphaTokens splits into identifier-like tokens and single other characters.
+func alphaTokens(s string) []string {
+	var out []string
+	i := 0
+	for i < len(s) {
+		ch := s[i]
+		isId := func(b byte) bool {
+			return b == '_' || b == '$' || b >= '0' && b <= '9' || b >= 'a' && b <= 'z' || b >= 'A' && b <= 'Z'
+		}
+		if ch == ' ' {
+			i++
+			continue
+		}
+		if isId(ch) {
+			j := i
+			for j < len(s) && isId(s[j]) {
+				j++
+			}
+			out = append(out, s[i:j])
+			i = j
+			continue
+		}
+		out = append(out, string(ch))
+		i++
+	}
+	return out
+}
+
+func isLTok(t string) bool {
+	if len(t) < 2 || t[0] != 'L' {
+		return false
+	}
+	for _, ch := range t[1:] {
+		if ch < '0' || ch > '9' {
+			return false
+		}
+	}
+	return true
+}
+
+func alphaMatchAt(pt, tt []string, at int) bool {
+	if at+len(pt) > len(tt) {
+		return false
+	}
+	bind := map[string]string{}
+	used := map[string]string{}
+	for i, p := range pt {
+		t := tt[at+i]
+		if strings.HasPrefix(p, "$") {
+			if !isLTok(t) {
+				return false
+			}
+			if b, ok := bind[p]; ok {
+				if b != t {
+					return false
+				}
+			} else {
+				if u, taken := used[t]; taken && u != p {
+					return false
+				}
+				bind[p] = t
+				used[t] = p
+			}
+			continue
+		}
+		if p != t {
+			return false
+		}
+	}
+	return true
+}
+
+// AlphaMatch: the pattern (locals written as $name, no whitespace) equals the normalised text up to a
+// consistent injective renaming of locals.
+func AlphaMatch(pattern, text string) bool {
+	pt, tt := alphaTokens(pattern), alphaTokens(text)
+	return len(pt) == len(tt) && alphaMatchAt(pt, tt, 0)
+}
+
+// AlphaContains: the pattern occurs in the text as a contiguous token sequence up to renaming of locals.
+func AlphaContains(pattern, text string) bool {
+	pt, tt := alphaTokens(pattern), alphaTokens(text)
+	for at := 0; at+len(pt) <= len(tt); at++ {
+		if alphaMatchAt(pt, tt, at) {
+			return true
+		}
+	}
+	return false
+}
+
+// AlphaIndex is AlphaContains returning the token index of the first match (-1 if none).
+func AlphaIndex(pattern, text string) int {
+	pt, tt := alphaTokens(pattern), alphaTokens(text)
+	for at := 0; at+len(pt) <= len(tt); at++ {
+		if alphaMatchAt(pt, tt, at) {
+			return at
+		}
+	}
+	return -1
+}
+
+// AlphaSeq reports whether the patterns occur in this order (each after the previous one).
+func AlphaSeq(text string, patterns ...string) (int, bool) {
+	tt := alphaTokens(text)
+	at := 0
+	for i, p := range patterns {
+		pt := alphaTokens(p)
+		found := -1
+		for j := at; j+len(pt) <= len(tt); j++ {
+			if alphaMatchAt(pt, tt, j) {
+				found = j
+				break
+			}
+		}
+		if found < 0 {
+			return i, false
+		}
+		at = found + len(pt)
+	}
+	return len(patterns), true
+}
